@@ -164,6 +164,11 @@ def _worker_init(modname, tmpbase):
     global _DRIVER
     os.environ["TMPDIR"] = tmpbase
     tempfile.tempdir = tmpbase
+    # the explorer's worker processes must look like ordinary top-level ("master") processes to the
+    # library: cogent3.util.parallel.is_master_process() asks multiprocessing for a parent process
+    import multiprocessing.process as _mpp
+
+    _mpp._parent_process = None
     _DRIVER = importlib.import_module(modname)
     if hasattr(_DRIVER, "worker_init"):
         _DRIVER.worker_init()
